@@ -522,7 +522,9 @@ func W1N(sink Sink) {
 	exps := []string{"", "e1", "E1", "e+1", "E+1", "e-1", "E-1", "e10"}
 	tails := []string{"", "e5", ".5", "E+1", "5", "-", "+", "e", ".", "0"}
 	c := &h.Case{Family: "W1N"}
-	c.DescFn = func(c *h.Case) string { return fmt.Sprintf("number product #%d in context #%d with tail %q", c.P[0], c.P[1], tails[c.P[2]]) }
+	c.DescFn = func(c *h.Case) string {
+		return fmt.Sprintf("number product #%d in context #%d with tail %q", c.P[0], c.P[1], tails[c.P[2]])
+	}
 	buf := make([]byte, 0, 128)
 	n := 0
 	for _, sg := range signs {
@@ -556,7 +558,9 @@ func W1N(sink Sink) {
 func W1S(sink Sink) {
 	esc := []string{`\n`, `\"`, `\\`, `\/`, `\b`, `\t`, `\u00e9`, `\u0041`, `\ud83d\ude00`, `\ud800`, `\uDFFF`}
 	c := &h.Case{Family: "W1S"}
-	c.DescFn = func(c *h.Case) string { return fmt.Sprintf("escape pair (%q,%q) shape %d position %d", esc[c.P[0]], esc[c.P[1]], c.P[2], c.P[3]) }
+	c.DescFn = func(c *h.Case) string {
+		return fmt.Sprintf("escape pair (%q,%q) shape %d position %d", esc[c.P[0]], esc[c.P[1]], c.P[2], c.P[3])
+	}
 	buf := make([]byte, 0, 128)
 	keyPos := [][2]string{{"{", ":1}"}, {`{"a":1,`, ":2}"}, {"[{", ":null}]"}, {`[{"a":1,`, ":2}]"}, {`{"k":{`, ":1}}"}, {`{"k":{"a":1,`, ":2}}"}, {`[0,{`, ":1}]"}, {`{"o\tk":{`, ":1}}"}, {`{"o\tk":[{`, ":1}]}"}, {`{"o\u00e9":{"a":1,`, ":1}}"}}
 	for i, e1 := range esc {
@@ -683,7 +687,9 @@ func W1RI(sink Sink) {
 func W1Depth(sink Sink) {
 	pats := [][]int{{0}, {1}, {2}, {3}, {0, 2}, {1, 3}}
 	c := &h.Case{Family: "W1Dp"}
-	c.DescFn = func(c *h.Case) string { return fmt.Sprintf("nest pattern %v depth %d inner %q", pats[c.P[0]], c.P[1], NestInner[c.P[2]]) }
+	c.DescFn = func(c *h.Case) string {
+		return fmt.Sprintf("nest pattern %v depth %d inner %q", pats[c.P[0]], c.P[1], NestInner[c.P[2]])
+	}
 	for pi, pat := range pats {
 		for d := 1; d <= 130; d++ {
 			for ii, inner := range NestInner {
